@@ -55,13 +55,380 @@ pub fn prop() -> HistProp {
             "the io trace hook sits in VarFile::{flush,sync_all,sync_data}; the system-call level is cross-checked by the strace variant (child cases)",
         ],
         cfg,
-        n: |t| t.pick(1500, 15000),
+        n: |t| t.pick(8000, 80000),
         nontrivial,
         timeout: |t| t.pick(60, 120),
         shrink_iters: 400,
     }
 }
 
-pub fn child_main(_req: &str) -> i32 {
-    2
+// ------------------------------------------------------------------------------------------
+// child-process variants: SIGKILL at a sync point, and strace ground truth for OS sync requests
+
+use crate::subcmd::RunHistoryReq;
+use proptest::prelude::*;
+use serde::{Deserialize, Serialize};
+use std::io::{BufRead, BufReader, Write};
+use std::process::{Command, Stdio};
+
+#[derive(Serialize, Deserialize, Clone, Debug)]
+pub struct C03Child {
+    pub h: History,
+    /// which sync point (scaled index) the writer is killed at; None: run to the end under strace
+    pub kill_sel: Option<u16>,
+}
+
+/// child side: run the history; announce every sync point and wait for the parent's decision
+pub fn child_main(req_file: &str) -> i32 {
+    crate::runner::install_panic_hook();
+    crate::runner::quiet_panics(true);
+    let req: RunHistoryReq = serde_json::from_str(&std::fs::read_to_string(req_file).expect("req")).expect("req json");
+    let _ = std::fs::create_dir_all(&req.dir);
+    let ctx = crate::exec::Ctx {
+        dir: std::path::PathBuf::from(&req.dir),
+        exe: None,
+        cur_op: std::cell::Cell::new(0),
+    };
+    let marker = |i: usize, tag: &str| {
+        let c = std::ffi::CString::new(format!("/vp-sync-{i}-{tag}")).unwrap();
+        unsafe {
+            libc::access(c.as_ptr(), libc::F_OK);
+        }
+    };
+    let r = crate::runner::guarded(&ctx, || {
+        let mut e = Exec::new(&req.history, &ctx)?;
+        e.on_sync_begin = Some(Box::new(|i| marker(i, "b")));
+        e.on_sync_end = Some(Box::new(|i, need: &[String]| {
+            marker(i, "e");
+            let so = std::io::stdout();
+            let mut so = so.lock();
+            let _ = writeln!(so, "SYNC {i} {}", need.join(","));
+            let _ = so.flush();
+            let mut line = String::new();
+            let _ = std::io::stdin().read_line(&mut line);
+        }));
+        e.run()?;
+        Ok(e.rep.clone())
+    });
+    match r {
+        Ok(_) => println!("DONE ok"),
+        Err(f) => println!("DONE {}", serde_json::to_string(&f).unwrap()),
+    }
+    0
+}
+
+fn child_strategy(tier: Tier, index: u64, kill: bool) -> BoxedStrategy<C03Child> {
+    let mut c = cfg(tier, index);
+    c.ops.n_ops = tier.pick(1..=80, 1..=200);
+    c.ops.w.reopen = 0;
+    // the child checks the io trace itself; snapshots are taken by the parent
+    c.obs = Obs {
+        io_trace: true,
+        ..Default::default()
+    };
+    (crate::gen::history_strategy(c), any::<u16>())
+        .prop_map(move |(h, k)| C03Child {
+            h,
+            kill_sel: if kill { Some(k) } else { None },
+        })
+        .boxed()
+}
+
+fn strace_available() -> bool {
+    Command::new("strace")
+        .arg("-V")
+        .stdout(Stdio::null())
+        .stderr(Stdio::null())
+        .status()
+        .map(|s| s.success())
+        .unwrap_or(false)
+}
+
+fn verify_left_behind(dir: &std::path::Path, h: &History, n_ops: usize, what: &str) -> Result<(), Failure> {
+    use crate::childproc::{digest_model, verify_dir, DirMap, VerifyReq};
+    let models = crate::exec::model_after(h, n_ops);
+    for (mi, ms) in h.maps.iter().enumerate() {
+        let files = crate::exec::read_files(dir, &ms.name)
+            .map_err(|e| Failure::new("durability", Some(n_ops), format!("{what}: files unreadable: {e}")))?;
+        let d = crate::decoder::decode(ms.kt, &files[0], &files[1], &files[2]);
+        if let Some(c) = d.header.first().or(d.structure.first()) {
+            return Err(Failure::new("durability", Some(n_ops), format!("{what}: independent decode: {c}")));
+        }
+        if d.contents() != models[mi] {
+            return Err(Failure::new(
+                "durability",
+                Some(n_ops),
+                format!("{what}: decoded contents ({} entries) differ from the state at the sync point ({} entries)", d.contents().len(), models[mi].len()),
+            ));
+        }
+    }
+    let keys: Vec<Vec<Vec<u8>>> = h.maps.iter().map(|m| m.keys.iter().map(|k| k.bytes()).collect()).collect();
+    let req = VerifyReq {
+        dir: dir.to_string_lossy().to_string(),
+        maps: h
+            .maps
+            .iter()
+            .enumerate()
+            .map(|(i, m)| DirMap {
+                name: m.name.clone(),
+                kt: m.kt,
+                params: m.params,
+                keys: keys[i].iter().map(|k| hex(k)).collect(),
+            })
+            .collect(),
+    };
+    crate::runner::quiet_panics(true);
+    let got = std::panic::catch_unwind(std::panic::AssertUnwindSafe(|| verify_dir(&req)));
+    crate::runner::quiet_panics(false);
+    match got {
+        Ok(Ok(g)) => {
+            for (i, m) in h.maps.iter().enumerate() {
+                if g.maps[i] != digest_model(&keys[i], &models[i]) {
+                    return Err(Failure::new(
+                        "durability",
+                        Some(n_ops),
+                        format!("{what}: map {} opens to other contents than the state at the sync point", m.name),
+                    ));
+                }
+            }
+            Ok(())
+        }
+        Ok(Err(e)) => Err(Failure::new("durability", Some(n_ops), format!("{what}: cannot be opened: {e}"))),
+        Err(p) => Err(Failure::new(
+            "durability",
+            Some(n_ops),
+            format!("{what}: cannot be opened: panic: {}", crate::runner::panic_text(&p)),
+        )),
+    }
+}
+
+fn run_child_case(c: &C03Child, w: &WCtx) -> Result<Report, Failure> {
+    let mut rep = Report::default();
+    let sync_ops: Vec<usize> = c.h.ops.iter().enumerate().filter(|(_, o)| o.is_sync()).map(|(i, _)| i).collect();
+    let dir = w.fresh_dir();
+    let dbdir = dir.join("db");
+    let req = RunHistoryReq {
+        dir: dbdir.to_string_lossy().to_string(),
+        history: c.h.clone(),
+    };
+    let reqf = dir.join("req.json");
+    std::fs::write(&reqf, serde_json::to_string(&req).unwrap()).map_err(|e| Failure::new("infra", None, format!("write req: {e}")))?;
+    let strace_log = dir.join("strace.log");
+    let use_strace = c.kill_sel.is_none() && strace_available();
+    if c.kill_sel.is_none() && !use_strace {
+        rep.bump("strace_unavailable");
+    }
+    let mut cmd = if use_strace {
+        let mut cm = Command::new("strace");
+        cm.args(["-f", "-qq", "-y", "-e", "trace=fsync,fdatasync,access", "-o"])
+            .arg(&strace_log)
+            .arg(&w.exe);
+        cm
+    } else {
+        Command::new(&w.exe)
+    };
+    let mut child = cmd
+        .arg("c03-child")
+        .arg(&reqf)
+        .stdin(Stdio::piped())
+        .stdout(Stdio::piped())
+        .stderr(Stdio::null())
+        .spawn()
+        .map_err(|e| Failure::new("infra", None, format!("spawn child: {e}")))?;
+    let mut stdin = child.stdin.take().unwrap();
+    let stdout = child.stdout.take().unwrap();
+    let kill_at: Option<usize> = match (c.kill_sel, sync_ops.len()) {
+        (Some(k), n) if n > 0 => Some(sync_ops[(k as usize * n) >> 16]),
+        _ => None,
+    };
+    let mut needs: Vec<(usize, Vec<String>)> = Vec::new();
+    let mut done: Option<String> = None;
+    let mut killed_at: Option<usize> = None;
+    let rd = BufReader::new(stdout);
+    for line in rd.lines() {
+        let line = match line {
+            Ok(l) => l,
+            Err(_) => break,
+        };
+        if let Some(rest) = line.strip_prefix("SYNC ") {
+            let mut it = rest.splitn(2, ' ');
+            let i: usize = it.next().unwrap_or("0").parse().unwrap_or(0);
+            let need: Vec<String> = it.next().unwrap_or("").split(',').filter(|s| !s.is_empty()).map(|s| s.to_string()).collect();
+            needs.push((i, need));
+            if Some(i) == kill_at {
+                unsafe {
+                    libc::kill(child.id() as i32, libc::SIGKILL);
+                }
+                killed_at = Some(i);
+                break;
+            }
+            let _ = writeln!(stdin, "go");
+            let _ = stdin.flush();
+        } else if let Some(rest) = line.strip_prefix("DONE ") {
+            done = Some(rest.to_string());
+            break;
+        }
+    }
+    drop(stdin);
+    let _ = child.wait();
+    let result = (|| -> Result<(), Failure> {
+        if let Some(i) = killed_at {
+            // the directory left behind by the killed writer
+            verify_left_behind(&dbdir, &c.h, i + 1, &format!("directory left behind when the writer is SIGKILLed right after {:?} (op {i}) returned Ok", c.h.ops[i]))?;
+            rep.bump("killed_at_sync_point");
+            let ups = c.h.ops[..=i].iter().filter(|o| o.is_update()).count();
+            if ups > 0 {
+                rep.bump("killed_after_updates");
+            }
+            return Ok(());
+        }
+        match done.as_deref() {
+            Some("ok") => {}
+            Some(f) => {
+                let f: Failure = serde_json::from_str(f).unwrap_or_else(|_| Failure::new("child", None, f.to_string()));
+                return Err(Failure::new(&f.kind, f.op, format!("(writer in a child process) {}", f.msg)));
+            }
+            None => return Err(Failure::new("abort", None, "the writer child ended without a result".into())),
+        }
+        if use_strace {
+            let log = std::fs::read_to_string(&strace_log).unwrap_or_default();
+            if !log.contains("vp-sync-") {
+                rep.bump("strace_unavailable");
+                return Ok(());
+            }
+            // events per sync op
+            let mut cur: Option<usize> = None;
+            let mut ev: std::collections::BTreeMap<usize, Vec<(String, String)>> = std::collections::BTreeMap::new();
+            for l in log.lines() {
+                if let Some(p) = l.find("access(\"/vp-sync-") {
+                    let rest = &l[p + 17..];
+                    let num: String = rest.chars().take_while(|c| c.is_ascii_digit()).collect();
+                    let i: usize = num.parse().unwrap_or(0);
+                    if rest[num.len()..].starts_with("-b") {
+                        cur = Some(i);
+                    } else {
+                        cur = None;
+                    }
+                    continue;
+                }
+                for sc in ["fdatasync", "fsync"] {
+                    if let Some(p) = l.find(&format!("{sc}(")) {
+                        if l[..p].chars().all(|c| c.is_ascii_digit() || c == ' ') {
+                            if let (Some(i), Some(a), Some(b)) = (cur, l.find('<'), l.find('>')) {
+                                let path = &l[a + 1..b];
+                                let base = path.rsplit('/').next().unwrap_or(path).to_string();
+                                ev.entry(i).or_default().push((sc.to_string(), base));
+                            }
+                        }
+                    }
+                }
+            }
+            for (i, need) in &needs {
+                let op = &c.h.ops[*i];
+                let want_all = matches!(op, Op::SyncAll | Op::DbSyncAll);
+                if matches!(op, Op::Flush) {
+                    continue;
+                }
+                let got = ev.get(i).cloned().unwrap_or_default();
+                for f in need {
+                    let ok = got.iter().any(|(sc, b)| b == f && (sc == "fsync" || (!want_all && sc == "fdatasync")));
+                    if !ok {
+                        return Err(Failure::new(
+                            "iotrace",
+                            Some(*i),
+                            format!(
+                                "{:?} returned Ok but no {} system call was made for {f} (changed on disk since its last OS sync); system calls seen during the call: {:?}",
+                                op,
+                                if want_all { "fsync" } else { "fdatasync/fsync" },
+                                got
+                            ),
+                        ));
+                    }
+                    rep.bump("strace_sync_confirmed");
+                }
+            }
+            rep.bump("strace_checked");
+        }
+        Ok(())
+    })();
+    w.cleanup(&dir);
+    result?;
+    Ok(rep)
+}
+
+pub struct C03;
+
+fn n_kill(tier: Tier) -> u64 {
+    tier.pick(1500, 15000)
+}
+fn n_strace(tier: Tier) -> u64 {
+    tier.pick(300, 3000)
+}
+
+impl Prop for C03 {
+    fn id(&self) -> &'static str {
+        "C03"
+    }
+    fn level(&self) -> &'static str {
+        "fault_enumeration"
+    }
+    fn rule(&self) -> String {
+        format!("{} CHILD VARIANTS: (kill) the history is executed by a spawned writer process that announces every sync point; the parent SIGKILLs it right after a generated one of them returned Ok and then decodes and opens the directory left behind: it must equal the model state at that point. (strace) the writer runs to the end under `strace -f -y -e trace=fsync,fdatasync,access`; for every sync_data/sync_all the files that had changed on disk must show a real fdatasync/fsync (sync_all: fsync) system call between the call's begin/end markers. Labels killed_at_sync_point / strace_sync_confirmed count these.", prop().rule)
+    }
+    fn assumptions(&self) -> Vec<String> {
+        let mut a = prop().assumptions();
+        a.push("if ptrace/strace is unavailable the system-call sub-check is reported as skipped (label strace_unavailable), never as a violation".into());
+        a
+    }
+    fn n_cases(&self, tier: Tier) -> u64 {
+        prop().n_cases(tier) + n_kill(tier) + n_strace(tier)
+    }
+    fn timeout_s(&self, tier: Tier) -> u64 {
+        tier.pick(90, 180)
+    }
+    fn run_case(&self, tier: Tier, seed: u64, index: u64, w: &WCtx) -> CaseOut {
+        let nh = prop().n_cases(tier);
+        if index < nh {
+            return prop().run_case(tier, seed, index, w);
+        }
+        let kill = index < nh + n_kill(tier);
+        let st = child_strategy(tier, index, kill);
+        let mut out = run_generated(
+            index,
+            &st,
+            case_seed(seed, "C03", index),
+            120,
+            w,
+            |c: &C03Child| run_child_case(c, w),
+            |c, rep| (rep.has("killed_after_updates") || rep.has("strace_sync_confirmed"), digest_of(c)),
+        );
+        if let Some(c) = out.case.take() {
+            out.case = Some(json!({ "Child": c }));
+        }
+        if let Some(s) = out.sample.take() {
+            if index % 7 == 0 {
+                out.sample = Some(json!({ "Child": s }));
+            }
+        }
+        out
+    }
+    fn gen_case(&self, tier: Tier, seed: u64, index: u64) -> Value {
+        let nh = prop().n_cases(tier);
+        if index < nh {
+            return prop().gen_case(tier, seed, index);
+        }
+        let kill = index < nh + n_kill(tier);
+        json!({"Child": draw(&child_strategy(tier, index, kill), case_seed(seed, "C03", index))})
+    }
+    fn replay(&self, case: &Value, w: &WCtx) -> Result<Report, Failure> {
+        if let Some(c) = case.get("Child") {
+            let c: C03Child = serde_json::from_value(c.clone())
+                .map_err(|e| Failure::new("infra", None, format!("bad replay file: {e}")))?;
+            return run_child_case(&c, w);
+        }
+        prop().replay(case, w)
+    }
+    fn reductions(&self, case: &Value) -> Vec<Value> {
+        history_reductions(case)
+    }
 }
